@@ -73,6 +73,20 @@ func genPtSels(r *rand.Rand, depth int) []*ptField {
 	return out
 }
 
+// genPtChain: one composite field per level (mostly lists), depth levels deep, with a scalar beside it
+func genPtChain(r *rand.Rand, depth int) []*ptField {
+	leaf := &ptField{Name: "n", Alias: "n"}
+	if depth == 0 {
+		return []*ptField{leaf}
+	}
+	f := &ptField{Name: ptNames[r.Intn(5)], List: r.Intn(4) > 0}
+	if r.Intn(2) == 0 {
+		f.Alias = f.Name
+	}
+	f.Sub = genPtChain(r, depth-1)
+	return []*ptField{f, leaf}
+}
+
 func ptAST(fs []*ptField) ast.SelectionSet {
 	out := ast.SelectionSet{}
 	for _, f := range fs {
@@ -111,7 +125,11 @@ func (c *CoqFile) fsels(ss ast.SelectionSet) string {
 
 var ptIDs = []string{"1", "2", "u:1", "a#b", "x y", "é", "", "7#7:7", "Type:9"}
 
-func genPtData(r *rand.Rand, flat ast.SelectionSet, shaped *bool) map[string]interface{} {
+func genPtData(r *rand.Rand, flat ast.SelectionSet, shaped *bool, level ...int) map[string]interface{} {
+	lvl := 0
+	if len(level) > 0 {
+		lvl = level[0]
+	}
 	out := map[string]interface{}{}
 	if r.Intn(10) > 0 {
 		out["id"] = ptIDs[r.Intn(len(ptIDs))]
@@ -132,7 +150,7 @@ func genPtData(r *rand.Rand, flat ast.SelectionSet, shaped *bool) map[string]int
 			if len(sub) == 0 {
 				return "s" + fmt.Sprint(r.Intn(9))
 			}
-			return genPtData(r, sub, shaped)
+			return genPtData(r, sub, shaped, lvl+1)
 		}
 		switch x := r.Intn(40); {
 		case x == 0:
@@ -156,7 +174,11 @@ func genPtData(r *rand.Rand, flat ast.SelectionSet, shaped *bool) map[string]int
 			}
 		case f.Definition.Type.Elem != nil:
 			l := []interface{}{}
-			for i, n := 0, r.Intn(5); i < n; i++ {
+			maxn := 5
+			if lvl >= 3 {
+				maxn = 3
+			}
+			for i, n := 0, r.Intn(maxn); i < n; i++ {
 				if r.Intn(7) == 0 {
 					l = append(l, nil)
 				} else {
@@ -231,7 +253,12 @@ func pointsCases(r *rand.Rand, sh *Sharder, doc *CasesDoc, id *int, n int, repla
 		pc := replay
 		if pc == nil {
 			pc = &ptCase{Shaped: true}
-			pc.Sels = genPtSels(r, 1+r.Intn(3))
+			if i%5 == 4 {
+				// a deep chain: paths of four to eight points, lists on the way
+				pc.Sels = genPtChain(r, 4+r.Intn(5))
+			} else {
+				pc.Sels = genPtSels(r, 1+r.Intn(3))
+			}
 			flat0, _ := graphql.ApplyFragments(ptAST(pc.Sels), nil)
 			pc.Data = genPtData(r, flat0, &pc.Shaped)
 			pc.Targets = genPtTargets(r, flat0)
